@@ -176,7 +176,19 @@ pub fn change_points(a: &Args, az: &AZone, rng: &mut Rng) -> Vec<(i64, &'static 
                 ys.push(rng.range(last_year.max(-9999), 9999));
                 ys
             } else {
-                (last_year.max(-9999)..=9999).collect()
+                // every year for sixty years after the data ends and around 2038, every 37th year of the whole
+                // range, both ends, and forty seeded years (every year of the range was 400 million events)
+                let lo = last_year.max(-9999);
+                let mut ys: Vec<i64> = (lo..=(lo + 60).min(9999)).collect();
+                ys.extend(2030..=2045);
+                ys.extend((lo..=9999).step_by(37));
+                ys.extend_from_slice(&[-9999, -9998, -1, 0, 1, 1969, 1970, 1971, 9997, 9998, 9999]);
+                for _ in 0..40 {
+                    ys.push(rng.range(lo, 9999));
+                }
+                ys.sort();
+                ys.dedup();
+                ys
             };
             for y in years {
                 if y < last_year.max(-9999) || y > 9999 {
